@@ -612,11 +612,11 @@ fn reference_objectives(d: &Doc, r: &mut Rules) {
 // fault catalogue
 // ---------------------------------------------------------------------------------------------
 
-const FAMILIES: [&str; 50] = [
+const FAMILIES: [&str; 51] = [
     "job.duplicate-id", "job.demand-missing", "job.service-demand", "job.unbalanced", "job.reserved-id", "job.empty", "job.negative-duration", "job.negative-demand",
     "tw.malformed", "tw.inverted", "tw.intersect", "tw.arity", "tw.outside-shift",
     "vehicle.duplicate-type-id", "vehicle.duplicate-id", "vehicle.zero-costs", "break.offset-rescheduling", "reload.resource",
-    "relation.valid", "relation.unknown-job", "relation.unknown-vehicle", "relation.empty", "relation.multi-place-job", "relation.two-vehicles", "relation.bad-shift-index", "relation.special-id-undefined", "relation.incomplete-job", "relation.special-id-dangling",
+    "relation.valid", "relation.unknown-job", "relation.unknown-vehicle", "relation.empty", "relation.multi-place-job", "relation.two-vehicles", "relation.bad-shift-index", "relation.special-id-undefined", "relation.incomplete-job", "relation.special-id-dangling", "relation.special-id-valid",
     "profile.duplicate", "profile.empty", "profile.unknown", "location.mixed", "matrix.none", "matrix.too-small", "matrix.too-large", "matrix.sparse-index", "matrix.ragged", "matrix.profile-mix",
     "objective.empty", "objective.duplicate", "objective.no-cost", "objective.value-redundant", "objective.order-redundant", "objective.non-positive", "objective.multi-cost", "objective.value-missing", "objective.exotic", "objective.nested",
     "misc.vector", "misc.scalar",
@@ -983,6 +983,30 @@ fn apply_more(d: &mut Doc, f: &FaultSel) -> Option<Applied> {
                 }
                 rel.jobs.push(special.to_string());
                 detail = special.to_string();
+            }
+            "relation.special-id-valid" => {
+                // VALID documents: the reserved id `break` names the optional break of the shift, also when required breaks are
+                // listed next to it (before or after); `reload` names a defined reload
+                let (vi, si) = shift_of(d, &rel)?;
+                let s = d.p.fleet.vehicles[vi].shifts.get_mut(si)?;
+                let (s0, s1, _) = shift_span(s)?;
+                let required = || api::VehicleBreak::Required { time: api::VehicleRequiredBreakTime::OffsetTime { earliest: 10., latest: 20. }, duration: 5. };
+                // (E1303: break windows of a shift must not intersect - the required one spans [s0+10, s0+25])
+                let optional = || window_break(vec![tt(s0 + 40), tt((s0 + s1) / 2 + 40)]);
+                match (a / 3) % 4 {
+                    0 => s.breaks = Some(vec![optional()]),
+                    1 => {
+                        s.start.latest = Some(s.start.earliest.clone());
+                        s.breaks = Some(vec![required(), optional()]);
+                    }
+                    2 => {
+                        s.start.latest = Some(s.start.earliest.clone());
+                        s.breaks = Some(vec![optional(), required()]);
+                    }
+                    _ => s.reloads = Some(vec![api::VehicleReload { location: s.start.location.clone(), duration: 0., times: None, tag: None, resource_id: None }]),
+                }
+                rel.jobs.push(if (a / 3) % 4 == 3 { "reload" } else { "break" }.to_string());
+                detail = ["optional-break", "required-then-optional-break", "optional-then-required-break", "reload"][(a / 3) % 4].to_string();
             }
             "relation.incomplete-job" => {
                 let id = rel.jobs[first_real].clone();
